@@ -73,6 +73,30 @@ def _dfa_compare(ctx, name, step, accept, reject, nstates, loc):
            (f"state {diff[0]} on byte 0x{diff[1]:02x} -> {diff[2]}: {diff[3]}" if diff else ""), loc)
 
 
+def _py_roles(ctx, fn):
+    """Roles in a pure-Python DFA driver, found by structure (not by local names): the step statement
+    `<state> = TABLE[256 + ...]`, the state variable, the byte expression (the argument of the TABLE[...] class lookup,
+    inside the step or through a local holding the class)."""
+    steps = [s_ for s_ in walk_no_defs(fn.node) if isinstance(s_, ast.Assign) and isinstance(s_.value, ast.Subscript) and norm.text(s_.value.value) == "UTF8VALIDATOR_DFA_S"
+             and any(isinstance(x, ast.Constant) and x.value == 256 for x in ast.walk(s_.value.slice))]
+    ctx.require(len(steps) == 1, f"{fn.qualname}: DFA step `state = TABLE[256 + ...]` not found")
+    step = steps[0]
+    statevar = norm.text(step.targets[0])
+    inner = [x for x in ast.walk(step.value.slice) if isinstance(x, ast.Subscript) and norm.text(x.value) == "UTF8VALIDATOR_DFA_S"]
+    aliases = {}
+    byte = None
+    if inner:
+        byte = norm.text(inner[0].slice)
+    else:
+        for s_ in walk_no_defs(fn.node):
+            if isinstance(s_, ast.Assign) and isinstance(s_.targets[0], ast.Name) and isinstance(s_.value, ast.Subscript) and norm.text(s_.value.value) == "UTF8VALIDATOR_DFA_S" \
+                    and s_ is not step and any(isinstance(x, ast.Name) and x.id == s_.targets[0].id for x in ast.walk(step.value.slice)):
+                aliases[s_.targets[0].id] = s_
+                byte = norm.text(s_.value.slice)
+    ctx.require(byte is not None, f"{fn.qualname}: byte class lookup not found in the DFA step")
+    return {"step": step, "statevar": statevar, "byte": byte, "class_aliases": aliases}
+
+
 def rule_python_dfa(ctx):
     ctx.rule("C09.1-python-dfa-equals-rfc3629")
     m, T, ACC, REJ = _py_table(ctx)
@@ -87,20 +111,17 @@ def rule_python_dfa(ctx):
     alias = m.consts.get("UTF8VALIDATOR_DFA_S")
     ctx.ob("loop table is bytes(UTF8VALIDATOR_DFA)", alias is not None and norm.text(alias) == "bytes(UTF8VALIDATOR_DFA)", "UTF8VALIDATOR_DFA_S changed", m.relpath)
     ctx.ob("all table entries fit into a byte", all(0 <= x < 256 for x in T), "entry >= 256", m.relpath)
-    for meth, statevar, bytevar in (("validate", "state", "ba[i]"), ("decode", "self._state", "b")):
+    for meth in ("validate", "decode"):
         fn = c.methods.get(meth)
         ctx.require(fn is not None, f"Utf8Validator.{meth} missing")
         ctx.analysed(fn)
-        steps = [s for s in walk_no_defs(fn.node) if isinstance(s, ast.Assign) and norm.text(s.targets[0]) == statevar and isinstance(s.value, ast.Subscript)
-                 and norm.text(s.value.value) == "UTF8VALIDATOR_DFA_S"]
-        ctx.require(len(steps) == 1, f"Utf8Validator.{meth}: DFA step not found")
+        roles = _py_roles(ctx, fn)
+        steps, statevar = [roles["step"]], roles["statevar"]
         idx = steps[0].value.slice
         S, B = np.meshgrid(np.arange(nstates), np.arange(256), indexing="ij")
-        env = {statevar: S, bytevar: B, "UTF8VALIDATOR_DFA_S": lambda i: Ta[i]}
-        if meth == "decode":
-            tts = [s for s in walk_no_defs(fn.node) if isinstance(s, ast.Assign) and norm.text(s.targets[0]) == "tt"]
-            ctx.require(len(tts) == 1 and norm.text(tts[0].value) == "UTF8VALIDATOR_DFA_S[b]", "decode: tt is not the class of b")
-            env["tt"] = Ta[B]
+        env = {statevar: S, roles["byte"]: B, "UTF8VALIDATOR_DFA_S": lambda i: Ta[i]}
+        for nm in roles["class_aliases"]:
+            env[nm] = Ta[B]  # a local holding TABLE[byte]: the class of the byte
         I = _eval_index(idx, env)
         ctx.ob(f"{meth}: index expression stays inside the table", bool(np.all((I >= 0) & (I < len(T)))), "index out of range for some (state, byte)", fn.loc(steps[0]))
         NXT = Ta[np.clip(I, 0, len(T) - 1)]
@@ -118,42 +139,59 @@ def rule_python_bookkeeping(ctx):
     m, T, ACC, REJ = _py_table(ctx)
     fn = m.classes["Utf8Validator"].methods["validate"]
     g, mf, res = an.get(fn)
+    roles = _py_roles(ctx, fn)
+    SV = roles["statevar"]
+    inner = [x for x in ast.walk(roles["step"].value.slice) if isinstance(x, ast.Subscript) and norm.text(x.value) == "UTF8VALIDATOR_DFA_S"]
+    ctx.require(bool(inner) and isinstance(inner[0].slice, ast.Subscript) and isinstance(inner[0].slice.value, ast.Name) and isinstance(inner[0].slice.slice, ast.Name),
+                "validate: byte is not read as <chunk>[<cursor>]")
+    CH, CUR = inner[0].slice.value.id, inner[0].slice.slice.id
+    ctx.ob("the validated octets are the chunk passed in", CH == fn.params()[1], f"reads {CH}", fn.loc())
+    from ..core.flow import local_assignments
+    LV = [st_.targets[0].id for st_ in walk_no_defs(fn.node) if isinstance(st_, ast.Assign) and isinstance(st_.targets[0], ast.Name) and norm.text(st_.value) == f"len({CH})"]
+    ctx.require(len(LV) == 1, "validate: length variable (len(chunk)) not found")
+    LV = LV[0]
     rets = [n for n in g.stmt_nodes() if n.kind == "stmt" and isinstance(n.ast, ast.Return)]
     ctx.require(len(rets) == 2, "validate: expected a reject return and a normal return")
-    ld = [n for n in g.stmt_nodes() if n.kind == "stmt" and isinstance(n.ast, ast.Assign) and norm.text(n.ast.targets[0]) == "state" and norm.text(n.ast.value) == "self._state"]
+    ld = [n for n in g.stmt_nodes() if n.kind == "stmt" and isinstance(n.ast, ast.Assign) and norm.text(n.ast.targets[0]) == SV and norm.text(n.ast.value) == "self._state"]
     ctx.ob("state loaded from the object at entry (incremental)", len(ld) == 1, "state = self._state missing", fn.loc())
-    inc = [n for n in g.stmt_nodes() if n.kind == "stmt" and isinstance(n.ast, ast.AugAssign) and norm.text(n.ast.target) == "i"]
-    ctx.require(len(inc) == 1 and norm.text(inc[0].ast.value) == "1", "validate: i += 1 not found")
-    step = [n for n in g.stmt_nodes() if n.kind == "stmt" and isinstance(n.ast, ast.Assign) and norm.text(n.ast.targets[0]) == "state" and isinstance(n.ast.value, ast.Subscript)]
+    inc = [n for n in g.stmt_nodes() if n.kind == "stmt" and ((isinstance(n.ast, ast.AugAssign) and norm.text(n.ast.target) == CUR and isinstance(n.ast.op, ast.Add) and norm.text(n.ast.value) == "1")
+                                                              or (isinstance(n.ast, ast.Assign) and norm.text(n.ast.targets[0]) == CUR and norm.text(n.ast.value) in (f"{CUR} + 1", f"1 + {CUR}")))]
+    ctx.require(len(inc) == 1, "validate: cursor increment by one not found")
+    step = [n for n in g.stmt_nodes() if n.ast is roles["step"]]
+    rejfact = ("eq", SV, ("c", REJ), True)
+
+    def is_rej_value(e):
+        ok_, v_ = ctx.program.try_const(e, fn.module, fn.cls)
+        return norm.text(e) == SV or (ok_ and v_ == REJ)
     for r in rets:
         vals = [norm.text(e) for e in r.ast.value.elts] if isinstance(r.ast.value, ast.Tuple) else []
         facts = mf.at(r)
-        if ("eq", "state", ("c", REJ), True) in facts:
-            ok = vals == ["False", "False", "i", "self._index"]
+        if rejfact in facts:
+            ok = vals == ["False", "False", CUR, "self._index"]
             ctx.ob("reject: returns (False, False, i, total)", ok, f"returns {vals}", fn.loc(r.ast))
-            # offending byte index: no increment between the step and the return
             ctx.ob("reject: position is the offending byte (cursor not yet advanced)", not g.path_exists(step[0], r, avoid=lambda x: False) or
-                   not any(g.path_exists(step[0], inc[0], avoid=lambda x: x is r) and g.path_exists(inc[0], r, avoid=lambda x: x is step[0]) for _ in [0]),
+                   not (g.path_exists(step[0], inc[0], avoid=lambda x: x is r) and g.path_exists(inc[0], r, avoid=lambda x: x is step[0])),
                    "cursor incremented before the position is reported", fn.loc(r.ast))
             st = [n for n in g.stmt_nodes() if n.kind == "stmt" and isinstance(n.ast, ast.Assign) and norm.text(n.ast.targets[0]) == "self._state" and
-                  ("eq", "state", ("c", REJ), True) in (mf.at(n) or ())]
+                  rejfact in (mf.at(n) or ())]
             ix = [n for n in g.stmt_nodes() if n.kind == "stmt" and isinstance(n.ast, ast.AugAssign) and norm.text(n.ast.target) == "self._index" and
-                  ("eq", "state", ("c", REJ), True) in (mf.at(n) or ())]
-            ctx.ob("reject: state stored", len(st) == 1 and norm.text(st[0].ast.value) == "state" and g.always_preceded_by(r, lambda x: x is st[0]), "reject state not persisted", fn.loc(r.ast))
-            ctx.ob("reject: total index advanced by the offending position", len(ix) == 1 and norm.text(ix[0].ast.value) == "i" and g.always_preceded_by(r, lambda x: x is ix[0]), "total index update changed", fn.loc(r.ast))
+                  rejfact in (mf.at(n) or ())]
+            ctx.ob("reject: state stored", len(st) == 1 and is_rej_value(st[0].ast.value) and g.always_preceded_by(r, lambda x: x is st[0]), "reject state not persisted", fn.loc(r.ast))
+            ctx.ob("reject: total index advanced by the offending position", len(ix) == 1 and norm.text(ix[0].ast.value) == CUR and g.always_preceded_by(r, lambda x: x is ix[0]), "total index update changed", fn.loc(r.ast))
         else:
-            ok = vals == ["True", "state == UTF8_ACCEPT", "l", "self._index"]
+            acc_txt = {f"{SV} == UTF8_ACCEPT", f"UTF8_ACCEPT == {SV}"}
+            ok = len(vals) == 4 and vals[0] == "True" and vals[1] in acc_txt and vals[2] in (LV, f"len({CH})") and vals[3] == "self._index"
             ctx.ob("normal exit: returns (True, state == ACCEPT, len, total)", ok, f"returns {vals}", fn.loc(r.ast))
             st = [n for n in g.stmt_nodes() if n.kind == "stmt" and isinstance(n.ast, ast.Assign) and norm.text(n.ast.targets[0]) == "self._state" and n.lineno > inc[0].lineno]
             ix = [n for n in g.stmt_nodes() if n.kind == "stmt" and isinstance(n.ast, ast.AugAssign) and norm.text(n.ast.target) == "self._index" and n.lineno > inc[0].lineno]
-            ctx.ob("normal exit: state stored", len(st) == 1 and norm.text(st[0].ast.value) == "state" and g.always_preceded_by(r, lambda x: x is st[0]), "state not persisted", fn.loc(r.ast))
-            ctx.ob("normal exit: total index advanced by the chunk length", len(ix) == 1 and norm.text(ix[0].ast.value) == "l", "total index update changed", fn.loc(r.ast))
-    lens = {norm.text(s.targets[0]): norm.text(s.value) for s in walk_no_defs(fn.node) if isinstance(s, ast.Assign)}
-    ctx.ob("l = len(chunk), i starts at 0, loop while i < l", lens.get("l") == "len(ba)" and lens.get("i") == "0" and
-           any(n.kind == "test" and norm.atoms(n.ast, True, res) == [("lt", ("e", "i"), ("e", "l"), True)] for n in g.stmt_nodes()), "loop bounds changed", fn.loc())
+            ctx.ob("normal exit: state stored", len(st) == 1 and norm.text(st[0].ast.value) == SV and g.always_preceded_by(r, lambda x: x is st[0]), "state not persisted", fn.loc(r.ast))
+            ctx.ob("normal exit: total index advanced by the chunk length", len(ix) == 1 and norm.text(ix[0].ast.value) in (LV, f"len({CH})"), "total index update changed", fn.loc(r.ast))
+    starts = [v for v in local_assignments(fn, CUR) if v is not None]
+    loop_ok = any(n.kind == "test" and norm.atoms(n.ast, True, res) in ([("lt", ("e", CUR), ("e", LV), True)], [("lt", ("e", CUR), ("e", f"len({CH})"), True)]) for n in g.stmt_nodes())
+    ctx.ob("l = len(chunk), i starts at 0, loop while i < l", any(isinstance(v, ast.Constant) and v.value == 0 for v in starts) and loop_ok, "loop bounds changed", fn.loc())
     # nothing else persists between calls
-    stores = {norm.text(s.targets[0]) if isinstance(s, ast.Assign) else norm.text(s.target) for s in walk_no_defs(fn.node) if isinstance(s, (ast.Assign, ast.AugAssign)) and
-              is_self_attr(s.targets[0] if isinstance(s, ast.Assign) else s.target)}
+    stores = {norm.text(s_.targets[0]) if isinstance(s_, ast.Assign) else norm.text(s_.target) for s_ in walk_no_defs(fn.node) if isinstance(s_, (ast.Assign, ast.AugAssign)) and
+              is_self_attr(s_.targets[0] if isinstance(s_, ast.Assign) else s_.target)}
     ctx.ob("only _state and _index persist between calls", stores == {"self._state", "self._index"}, f"persisted: {sorted(stores)}", fn.loc())
 
 
@@ -298,13 +336,36 @@ def rule_c(ctx):
     ctx.require(w is not None, "NVX Utf8Validator wrapper missing")
     vfn = w.methods["validate"]
     ctx.analysed(vfn)
-    rets = [s for s in walk_no_defs(vfn.node) if isinstance(s, ast.Return)]
-    ok = len(rets) == 1 and isinstance(rets[0].value, ast.Tuple) and [norm.text(e) for e in rets[0].value.elts] == ["res >= 0", "res == 0", "current_index", "total_index"]
-    ctx.ob("wrapper maps res to (res >= 0, res == 0, current_index, total_index)", ok, "result mapping changed", vfn.loc())
-    asg = {norm.text(s.targets[0]): norm.text(s.value) for s in walk_no_defs(vfn.node) if isinstance(s, ast.Assign)}
-    ok = asg.get("res") == "self.lib.nvx_utf8vld_validate(self._vld, ba, len(ba))" and asg.get("current_index") == "self.lib.nvx_utf8vld_get_current_index(self._vld)" and \
-        asg.get("total_index") == "self.lib.nvx_utf8vld_get_total_index(self._vld)"
-    ctx.ob("wrapper validates the whole chunk and reads both indices", ok, f"{asg}", vfn.loc())
+    # the returned quad as a term over the three native calls (names of intermediate locals are irrelevant); the verdict flags are
+    # evaluated over the native return codes {-1: invalid, 0: valid on a code point boundary, 1: valid inside a code point}
+    from ..core.terms import TermEval, show, eval_bool, subterms
+    te = TermEval(ctx.program, vfn, inline=lambda c, f: None).run()
+    rets = [o for o in te.outcomes if o.kind == "return"]
+    lib = ("attr", ("p", "self"), "lib")
+    vld = ("attr", ("p", "self"), "_vld")
+    chunk = ("p", vfn.params()[1])
+    RES = ("m", lib, "nvx_utf8vld_validate", (vld, chunk, ("call", ("g", "len"), (chunk,), ())), ())
+    CUR = ("m", lib, "nvx_utf8vld_get_current_index", (vld,), ())
+    TOT = ("m", lib, "nvx_utf8vld_get_total_index", (vld,), ())
+    okm, why = False, "result mapping changed"
+    if len(rets) == 1 and rets[0].term[0] == "list" and len(rets[0].term) == 5:
+        q = rets[0].term[1:]
+        try:
+            def flag(t, code):
+                def atom(x):
+                    if x[0] == "cmp" and RES in x[2:] and any(y[0] == "c" for y in x[2:]):
+                        a_, b_ = [code if y == RES else y[1] for y in x[2:]]
+                        return {">=": a_ >= b_, "==": a_ == b_, ">": a_ > b_, "<": a_ < b_, "<=": a_ <= b_, "!=": a_ != b_}.get(x[1])
+                    return None
+                return eval_bool(t, atom)
+            table = [(flag(q[0], c_), flag(q[1], c_)) for c_ in (-1, 0, 1)]
+            okm = table == [(False, False), (True, True), (True, False)] and q[2] == CUR and q[3] == TOT
+            why = f"quad for native codes (-1, 0, 1) is {table}, indices {show(q[2])[:40]}, {show(q[3])[:40]}"
+        except AnalysisError as e:
+            why = str(e)
+    ctx.ob("wrapper maps the native result to (valid, ends on code point, current index, total index)", okm, why, vfn.loc())
+    calls = [x for o in rets for x in subterms(o.term) if x[0] == "m" and x[2] == "nvx_utf8vld_validate"]
+    ctx.ob("wrapper validates the whole chunk and reads both indices", bool(calls) and all(x == RES for x in calls), f"{[show(x)[:80] for x in calls]}", vfn.loc())
     rfn = w.methods["reset"]
     ctx.ob("wrapper reset() resets the native validator", any(norm.text(c.func) == "self.lib.nvx_utf8vld_reset" for c in calls_in(rfn.node)), "changed", rfn.loc())
 
